@@ -29,6 +29,16 @@ class Unrecognised(Exception):
 def calls_in(node, handler_var=None):
     found = []
     for n in ast.walk(node):
+        if isinstance(n, ast.Call) and isinstance(n.func, ast.Attribute):
+            on_self_attr = isinstance(n.func.value, ast.Attribute) and isinstance(n.func.value.value, ast.Name) \
+                and n.func.value.value.id == "self"
+            if isinstance(n.func.value, ast.Name) and n.func.value.id == "self":
+                # a helper method of the scope object: its body is elsewhere, the IR would silently lose its steps
+                raise Unrecognised(f"helper method self.{n.func.attr}(...)")
+            if n.func.attr in ("__enter__", "__exit__", "__aenter__", "__aexit__") and not (
+                    on_self_attr and (n.func.value.attr, n.func.attr) in ATOMS):
+                # a context manager entered / left through a name the IR does not know (renamed field, local alias)
+                raise Unrecognised(f"{ast.unparse(n.func)}: enter/exit of an unrecognised receiver")
         if isinstance(n, ast.Call) and isinstance(n.func, ast.Attribute) and isinstance(n.func.value, ast.Attribute) \
                 and isinstance(n.func.value.value, ast.Name) and n.func.value.value.id == "self":
             key = (n.func.value.attr, n.func.attr)
